@@ -134,6 +134,10 @@ TIES = {
                "theorems": ["source_split_iri_is_model", "source_term_encoder_init_is_model", "source_start_statement_is_model",
                             "source_encode_iri_indices_is_model", "source_encode_iri_is_model", "source_encode_namespace_declaration_is_model",
                             "source_encode_options_is_model", "source_encode_literal_is_model"]},
+    # the statement level of encode.py: same translation, second tie file (parametric in the integrations' dispatchers)
+    "encode_stmt": {"sources": ["pyjelly/serialize/encode.py"], "unit": "encode", "gen": "EncodeGen", "tie": "EncodeStmtTie",
+                    "needs": ["lookup_enc", "options", "encode"],
+                    "theorems": ["source_encode_triple_is_model", "source_encode_quad_is_model"]},
 }
 
 
@@ -158,20 +162,23 @@ def _one_tie(unit: str, t: dict, repo: str) -> dict:
     try:
         chain = [(n, TIES[n]) for n in t["needs"]] + [(unit, t)]
         for u, tu in chain:
-            p = subprocess.run([sys.executable, str(VERIF / "translate" / "py2v.py"), repo, u], capture_output=True, text=True, timeout=120)
-            if p.returncode != 0:
-                res["broken"] = (f"source tie {unit}: the translator cannot read {', '.join(tu['sources'])} any more ({p.stderr.strip()[-300:]}); "
-                                 f"theorems {t['theorems']} of coq/tie/{t['tie']}.v are not re-proved")
-                return res
-            gen_text = p.stdout
+            gen_file = Path(tmpd) / "gen" / f"{tu['gen']}.v"
+            cmd = f"cd {VERIF}/coq && "
+            if not gen_file.exists():
+                p = subprocess.run([sys.executable, str(VERIF / "translate" / "py2v.py"), repo, tu.get("unit", u)], capture_output=True, text=True, timeout=120)
+                if p.returncode != 0:
+                    res["broken"] = (f"source tie {unit}: the translator cannot read {', '.join(tu['sources'])} any more ({p.stderr.strip()[-300:]}); "
+                                     f"theorems {t['theorems']} of coq/tie/{t['tie']}.v are not re-proved")
+                    return res
+                gen_text = p.stdout
+                if FORBIDDEN.search(strip_comments(gen_text)):
+                    res["broken"] = f"source tie {unit}: forbidden construct in the generated file"
+                    return res
+                gen_file.write_text(gen_text)
+                cmd += f"timeout 600 coqc {q} {tmpd}/gen/{tu['gen']}.v && "
             if u == unit:
-                res["lines"] = len(gen_text.splitlines())
-            if FORBIDDEN.search(strip_comments(gen_text)):
-                res["broken"] = f"source tie {unit}: forbidden construct in the generated file"
-                return res
-            (Path(tmpd) / "gen" / f"{tu['gen']}.v").write_text(gen_text)
-            cmd = (f"cd {VERIF}/coq && timeout 600 coqc {q} {tmpd}/gen/{tu['gen']}.v && "
-                   f"timeout 600 coqc {q} -o {tmpd}/tie/{tu['tie']}.vo tie/{tu['tie']}.v")
+                res["lines"] = len(gen_file.read_text().splitlines())
+            cmd += f"timeout 600 coqc {q} -o {tmpd}/tie/{tu['tie']}.vo tie/{tu['tie']}.v"
             rc, out = sh(cmd, timeout=1300)
             closed = out.count("Closed under the global context")
             if rc != 0 or closed != len(tu["theorems"]) or "Axioms:" in out:
